@@ -62,6 +62,8 @@ class Inter:
         self._okpaths = {}
         self._feas_depth = 0
         self._ft_depth = 0
+        self._opened = {}
+        self._keep = []
         self.expand_pure = False     # opt-in: split caller paths over the success paths of pure multi-path helpers
         self._expanding = set()
 
@@ -112,6 +114,7 @@ class Inter:
         sub = lambda v: sym.subst(v, mapping, memo) if v is not None else None
         conds = []
         items = []
+        opened = []
 
         def add_cond(c):
             atom, outcome, bb, ln = c
@@ -133,7 +136,11 @@ class Inter:
             else:
                 e = it
                 if e is after_event:
-                    e2 = e
+                    # the opened call keeps its place; its result is now the callee's value (no longer a call node,
+                    # so the same call is never opened twice)
+                    e2 = P.Event(e.fn, e.bb, e.line, e.callee, e.name, [sub(a) for a in e.args], [sub(a) for a in e.raw], sub(e.result), e.target, e.self_ty)
+                    e2.idx = e.idx
+                    opened.append(e2)
                 else:
                     e2 = P.Event(e.fn, e.bb, e.line, e.callee, e.name, [sub(a) for a in e.args], [sub(a) for a in e.raw], sub(e.result), e.target, e.self_ty)
                     e2.idx = e.idx
@@ -150,7 +157,51 @@ class Inter:
                 return None
             seen.setdefault(a, o)
         ptr_out = {sub(k): sub(v) for k, v in p.ptr_out.items()}
-        return P.Path(p.fn, conds, events, sub(p.ret), p.exit, ptr_out, p.blocks, items)
+        q = P.Path(p.fn, conds, events, sub(p.ret), p.exit, ptr_out, p.blocks, items)
+        self._opened[id(q)] = opened[0] if opened else None
+        self._keep.append(q)
+        return q
+
+    def expand_on(self, p, e):
+        """split path p over the success paths of the workspace callee of event e (any callee without `&mut`
+        parameters): the call value is replaced by each return value, the callee's branch conditions and events are
+        spliced in after the call.  Returns [p] when the callee cannot be expanded."""
+        t = e.target
+        if t is None or tag(e.result) != "call":
+            return [p]
+        if any(t.locals[i + 1]["ty"].startswith("&mut ") for i in range(t.arg_count)):
+            return [p]
+        m = self.param_map(t, e.args)
+        try:
+            oks = self.ok_paths_at(t, m)
+        except P.TooManyPaths:
+            return [p]
+        if not oks or len(oks) > 12 or any(q.exit != "return" for q in oks):
+            return [p]
+        out = []
+        for cp in oks:
+            ret = sym.subst(cp.ret, m)
+            extra = [(sym.subst(a, m), o, bb, ln) for (a, o, bb, ln) in cp.conds]
+            q2 = self._subst_path(p, {e.result: ret}, extra, e)
+            if q2 is None:
+                continue
+            # splice the callee's events (in the caller's terms) right after the call
+            memo = {}
+            evs = []
+            for ce in cp.events:
+                e3 = P.Event(ce.fn, ce.bb, ce.line, ce.callee, ce.name, [sym.subst(a, m, memo) for a in ce.args],
+                             [sym.subst(a, m, memo) for a in ce.raw], sym.subst(ce.result, m, memo) if ce.result is not None else None, ce.target, ce.self_ty)
+                e3.idx = -1
+                evs.append(e3)
+            oe = self._opened.get(id(q2))
+            pos = next((i for i, x in enumerate(q2.events) if x is oe), None)
+            if pos is not None:
+                q2.events[pos + 1:pos + 1] = evs
+                ipos = next((i for i, (k, x) in enumerate(q2.items) if k == "e" and x is oe), None)
+                if ipos is not None:
+                    q2.items[ipos + 1:ipos + 1] = [("e", x) for x in evs]
+            out.append(q2)
+        return out or [p]
 
     def _expand_pure_helpers(self, fn, paths):
         out = []
@@ -279,6 +330,12 @@ class Inter:
             if name == "not":
                 r = self.fold_cond(ks[0], not outcome) if outcome in (True, False) else None
                 return r
+            if name == "is_zero" and len(ks) == 1 and tag(ks[0]) == "int" and outcome in (True, False):
+                return (int(payload(ks[0])[0]) == 0) == outcome
+            if name in ("lt", "le", "gt", "ge") and len(ks) == 2 and tag(ks[0]) == "int" and tag(ks[1]) == "int" and outcome in (True, False):
+                a, b = int(payload(ks[0])[0]), int(payload(ks[1])[0])
+                val = {"lt": a < b, "le": a <= b, "gt": a > b, "ge": a >= b}[name]
+                return val == outcome
         if t == "call" and outcome in (True, False):
             nm = payload(atom)[0]
             if is_integer_fn(nm) and nm.endswith(("::is_positive", "::is_negative")) and kids(atom):
